@@ -332,6 +332,9 @@ pub struct EnumSpec {
     /// items declared next to the enum that shadow prelude names (e.g. a local `trait Default`)
     #[serde(default)]
     pub decoys: Vec<String>,
+    /// the generator paired a case-sensitive with a case-insensitive spelling on purpose (C12)
+    #[serde(default)]
+    pub mixed_case_overlap: bool,
 }
 
 impl EnumSpec {
@@ -356,6 +359,7 @@ impl EnumSpec {
             noise: vec![],
             macro_args: vec![],
             decoys: vec![],
+            mixed_case_overlap: false,
         }
     }
     pub fn type_name(&self) -> String {
